@@ -1,4 +1,6 @@
-\* Not run by any check.  FreeOrder = TRUE lets a message handler run although a worker's death is already
+\* Not run by any check.  RetryJobs = {}
+  Retries = 0
+  FreeOrder = TRUE lets a message handler run although a worker's death is already
 \* queued (what a multi-threaded runtime can do and engine T cannot).  The two situations this configuration first
 \* showed (worker queue over the limit / sticky key on two workers after a job was parked on a closed worker) are
 \* reproduced on the real code since the harness has a worker that stays closed during post_stop; they are the named
@@ -29,6 +31,8 @@ CONSTANTS
   MayDrain = FALSE
   MaxT = 0
   TStep = 1
+  RetryJobs = {}
+  Retries = 0
   FreeOrder = TRUE
 INVARIANTS
   OneFate PortOk LostOnePerDeath NoFactoryPanic KeyExclusive KeyFifo OneAtATime HashInPool RoundRobinCovers QueuerNoIdle ViewExact
